@@ -376,7 +376,8 @@ func runC14(c *core.Ctx) {
 			res = callWatched(c, func() (map[string]interface{}, error) { return intoto.RunCommand(args, runDir) })
 		case "InTotoRun":
 			res = callWatched(c, func() (map[string]interface{}, error) {
-				md, err := intoto.InTotoRun("s", runDir, nil, nil, args, key.Priv, []string{"sha256"}, nil, nil, false, false, i%2 == 0)
+				// line normalisation concerns recorded artifacts only, never the captured output
+				md, err := intoto.InTotoRun("s", runDir, nil, nil, args, key.Priv, []string{"sha256"}, nil, nil, i%4 < 2, false, i%2 == 0)
 				if err != nil {
 					return nil, err
 				}
@@ -563,7 +564,7 @@ func init() {
 	core.Register(&core.Property{
 		ID:    "C14",
 		Level: "exploration",
-		Rule: "commands `vhelper emit` with planned output: stdout x stderr sizes from {0, 1, 4095, 4096, 65535, 65536, 65537, 200000, 1 MiB (, 4 MiB thorough)} in both orders, alternating chunks of 1 / 4096 / 65537 bytes, one stream closed before the other is written, text and binary content, exit statuses 0..255 (16 values), death by signals 1,2,6,9,11,13,15, run directory empty or a temp dir, program given relative to the run directory; through RunCommand, InTotoRun (by-products) and the CLI `run` (by-products in the link file); unstartable and empty commands. Oracle: streams regenerated from the seed and compared byte for byte, exact exit status; hang = causal witness (a thread of the child blocked in write(2) on fd 1/2, CPU time unchanged over 3 samples, call not returned; pid from the cmd_started hook), otherwise inconclusive. " +
+		Rule: "commands `vhelper emit` with planned output: stdout x stderr sizes from {0, 1, 4095, 4096, 65535, 65536, 65537, 200000, 1 MiB (, 4 MiB thorough)} in both orders, alternating chunks of 1 / 4096 / 65537 bytes, one stream closed before the other is written, text (with CR, LF, TAB) and binary content, InTotoRun with line normalisation on and off, exit statuses 0..255 (16 values), death by signals 1,2,6,9,11,13,15, run directory empty or a temp dir, program given relative to the run directory; through RunCommand, InTotoRun (by-products) and the CLI `run` (by-products in the link file); unstartable and empty commands. Oracle: streams regenerated from the seed and compared byte for byte, exact exit status; hang = causal witness (a thread of the child blocked in write(2) on fd 1/2, CPU time unchanged over 3 samples, call not returned; pid from the cmd_started hook), otherwise inconclusive. " +
 			"non-trivial = a stream exceeds one pipe buffer (64 KiB) or a non-zero status; distinct = (via, size classes, order, exit, signal, run dir)",
 		Assumptions: []string{"Linux x86-64 /proc/<pid>/task/*/syscall is readable (we run as root)", "for death by signal only 'not reported as success' is required"},
 		Workers:     func(string) int { return 16 },
